@@ -36,6 +36,8 @@ CHUNK = 4
 FAMS = ["AsyncFIFO", "CDC", "CDCSame", "BusSync", "CDCReset"]
 
 
+SEEDED_SCALE = {"quick": 1, "thorough": 5}      # multiplies the run counts of the sampled families in plan()
+
 def plan(tier):
     if tier == "quick":
         return [("AsyncFIFO", 60), ("CDC", 60), ("CDCSame", 16), ("BusSync", 80), ("CDCReset", 40), ("AXILiteCDC", 40)]
